@@ -87,6 +87,10 @@ fn run_case(tw: &c16::TcpWorld, c: &Case) -> Result<(), String> {
                 let end = (up_off + 16384).min(up.len());
                 match (st.as_mut(), h1.as_mut()) {
                     (Some(s), _) => {
+                        // an HTTP/2 client may send DATA frames without payload in the middle of its upload
+                        if round % 2 == 1 {
+                            s.send(&[], false);
+                        }
                         if s.send(&up[up_off..end], false) {
                             up_off = end;
                         }
